@@ -10,9 +10,10 @@ Section CP.
   Variables P U : Type.
   Variable invoke : U -> Z -> @ev P -> Z -> option (@inv_result P U).
   Variable etype : P -> Z.
+  Variable metric : U -> Z -> option Z.
   Notation st := (@st P U).
-  Notation cstep := (cstep invoke etype).
-  Notation citerate := (citerate invoke etype).
+  Notation cstep := (cstep invoke etype metric).
+  Notation citerate := (citerate invoke etype metric).
   Notation coutcome := (@coutcome P U).
   Notation session := (@session P U).
 
@@ -106,7 +107,7 @@ Section CP.
   Qed.
 
   Lemma do_cmd_ok fuel end_ns s0 x k :
-    sess_ok end_ns s0 x -> sess_ok end_ns s0 (do_cmd invoke etype fuel end_ns x k).
+    sess_ok end_ns s0 x -> sess_ok end_ns s0 (do_cmd invoke etype metric fuel end_ns x k).
   Proof.
     intros H. destruct k as [| |n| |b|]; unfold do_cmd.
     - destruct (s_phase x) eqn:E; unfold sess_ok in *; cbn; rewrite ?E in *; exact H.
@@ -118,7 +119,7 @@ Section CP.
     - destruct (s_phase x) eqn:E; unfold sess_ok in *; cbn; rewrite ?E in *; exact H.
   Qed.
 
-  Theorem session_ok fuel end_ns s0 ks : sess_ok end_ns s0 (run_session invoke etype fuel end_ns s0 ks).
+  Theorem session_ok fuel end_ns s0 ks : sess_ok end_ns s0 (run_session invoke etype metric fuel end_ns s0 ks).
   Proof.
     unfold run_session.
     assert (H0 : sess_ok end_ns s0 (mkSess NotStarted (mkCtl false None []) s0)) by (unfold sess_ok; cbn; constructor).
@@ -138,7 +139,7 @@ Section CP.
   Qed.
 
   Theorem session_completes_like_uninterrupted fuel end_ns s0 ks :
-    let x := run_session invoke etype fuel end_ns s0 ks in
+    let x := run_session invoke etype metric fuel end_ns s0 ks in
     s_phase x = Done ->
     exists n, forall fuel', (n <= fuel')%nat -> run_slow invoke fuel' end_ns s0 = Stopped (s_st x).
   Proof.
@@ -194,8 +195,8 @@ Section CP.
     is_cancelled s e || (ev_time e <? clock s) = false ->
     pop_and_handle invoke s e h = Running s' ->
     let c' := mkCtl (pause_req c) (match steps c with Some k => Some (k - 1) | None => None end)
-                    (filter (fun b => negb (should_break etype s' e b && bp_one b)) (bps c)) in
-    cstep end_ns c s = if existsb (should_break etype s' e) (bps c) then CPaused c' s' else CRunning c' s'.
+                    (filter (fun b => negb (should_break etype metric s' e b && bp_one b)) (bps c)) in
+    cstep end_ns c s = if existsb (should_break etype metric s' e) (bps c) then CPaused c' s' else CRunning c' s'.
   Proof.
     intros Hh Hg Hp Ha Hs Hpop. unfold Control.cstep. rewrite Hh, Hg, Hp, Ha, Hpop, Hs. cbn. reflexivity.
   Qed.
